@@ -38,7 +38,8 @@ P = {
                  "C20_merge_dotted_keys", "C20_domainN_nonvacuous", "C20_split_example_F4n", "C20_split_guard_example",
                  "C20_domain_nonvacuous", "C20_split_example", "C20_schema_loader_agree", "C20_tables_agree_accept_equal",
                  "C20_schema_loader_accept_equal",
-                 "C20_F1_refuted", "C20_F1_rows_all_disagree", "C20_F3_pinned_refuted", "C20_F3_repaired_on_witness", "C20_F4_refuted", "C20_F4_sharing_refuted"],
+                 "C20_F1_refuted", "C20_F1_rows_all_disagree", "C20_F3_pinned_refuted", "C20_F3_repaired_on_witness", "C20_F4_refuted", "C20_F4_sharing_refuted",
+                 "C20_history_independent", "C20_load_history_independent", "C20_load_sequence_meets_spec", "C20_shared_defaults_refuted"],
     "streams": [{
         "name": "tree", "pkg": "./internal/config/parser", "test": "TestVerifC20",
         "overlay": {"internal/config/parser/zz_verif_c20_test.go": "c20/c20_tree_test.go"},
@@ -58,7 +59,24 @@ P = {
         "eval_module": "Run.Eval_C20", "check_term": "check_meta",
         "n_quick": 120, "n_thorough": 1500, "findings": {4: "C20-F4", 5: "C20-F5", 6: "C20-F6"}, "escalate": False, "shard": 10,
     },
-    "rule": "three streams.  (meta, model-free) real config.NewConfiguration with validator, real Configuration struct, defaults and "
+    "_seq_stream": {
+        # sequences of loads in one (fresh) process through the real NewConfiguration; the meta driver's helpers are reused
+        "name": "seq", "pkg": "./internal/config", "test": "TestVerifC20Seq",
+        "overlay": {"internal/config/zz_verif_c20_meta_test.go": "c20/c20_meta_test.go",
+                    "internal/config/zz_verif_c20_seq_test.go": "c20/c20_seq_test.go"},
+        "eval_module": "Run.Eval_C20", "check_term": "check_seq",
+        "n_quick": 60, "n_thorough": 1500, "findings": {}, "escalate": False,
+    },
+    "rule": "four streams.  (seq, model-free) sequences of 2-4 DIFFERENT loads through the real config.NewConfiguration in one "
+            "process (the test binary re-executed per case, so every case starts from a fresh process and replays on its own): "
+            "inputs composed from hand-written variants of every top-level section (cache incl. the three redis kinds with "
+            "their map-typed cache.config, serve with lists and tls, mechanisms with config/header/cookie maps, default_rule, "
+            "providers with their map-typed settings, log/metrics/profiling/tracing), random leaves pruned, random leaves moved "
+            "to the environment, whole example files, environment-only inputs, failing inputs (schema-invalid file, "
+            "undecodable variable); observable = canonical deep rendering (reflect walk, unexported fields and pointers "
+            "followed, maps sorted) of the decoded Configuration right after each load and of every earlier result after each "
+            "later load; reference = the same (file, environment) loaded alone in its own fresh process, twice.  "
+            "(meta, model-free) real config.NewConfiguration with validator, real Configuration struct, defaults and "
             "hooks: for example_config.yaml, test_config.yaml and four inline configurations, random subsets of the nameable leaves are "
             "moved to the environment; the three related loads all-file / split / all-env are compared by reflect.DeepEqual of the "
             "decoded Configuration (corpus: the auditor's three asymmetries).  (schema) ~180 probes derived from the regenerated "
@@ -135,3 +153,23 @@ P = {
 }
 
 P["streams"].append(P.pop("_meta_stream"))
+
+
+def _custom(P_, tier, seed, replay):
+    """the generic runner, with a replay routed to the stream its case came from (a replay file of an unguarded
+    property failure does not name the stream; the shape of the case's input tells)"""
+    import runner
+    if replay and not replay.get("stream_name") and isinstance(replay.get("case"), dict):
+        cin = replay["case"].get("in")
+        cin = cin if isinstance(cin, dict) else {}
+        if "loads" in cin:
+            replay["stream"] = "seq"
+        elif "base" in cin and "selected" in cin:
+            replay["stream"] = "meta"
+        elif "opts" in cin and "kind" in cin:
+            replay["stream"] = "schema"
+    return runner.run_property(P_, tier, seed, replay)
+
+
+P["custom"] = _custom
+P["streams"].append(P.pop("_seq_stream"))
